@@ -73,9 +73,15 @@ def printed(out, tag):
     """JSON payloads of lines `<<"TAG", "json">>` printed by TLC (PrintT of ToJson)."""
     res = []
     prefix = f'<<"{tag}", "'
-    for line in out.splitlines():
+    wide = f'<< "{tag}",'          # TLC's pretty-printer breaks long tuples over two lines
+    lines = out.splitlines()
+    for i, line in enumerate(lines):
         if line.startswith(prefix) and line.endswith('">>'):
             res.append(json.loads(tla_unescape(line[len(prefix):-3])))
+        elif line.startswith(wide) and i + 1 < len(lines):
+            nxt = lines[i + 1].strip()
+            if nxt.startswith('"') and nxt.endswith('" >>'):
+                res.append(json.loads(tla_unescape(nxt[1:-4])))
     return res
 
 
@@ -132,13 +138,24 @@ def verdict(prop, tier, seed, level, coverage, violations, assumptions, t0, repl
     """violations: list of dicts with at least prop/rule/at (+ whatever identifies the case).
     Splits them into known findings and fresh violations, writes evidence, prints lines, exits."""
     known = load_known()
-    ksigs = {f"{k['property']}/{k['rule']}/{k['at']}": k for k in known.get("findings", [])}
+    ksigs = {f"{k['property']}/{k['rule']}/{k['at']}": k for k in known.get("findings", []) if "at" in k}
     fresh, hits = {}, {}
+    # a finding may be listed for every case that has a given feature ("at_has": one of the '+'-joined
+    # circumstances TLC put into `at`)
+    khas = [(k["property"], k["rule"], k["at_has"], f"{k['property']}/{k['rule']}/~{k['at_has']}") for k in known.get("findings", []) if "at_has" in k]
+    for _, _, _, ks in khas:
+        ksigs[ks] = next(k for k in known["findings"] if k.get("at_has") and f"{k['property']}/{k['rule']}/~{k['at_has']}" == ks)
     for v in violations:
         s = sig_of(v)
         w = f"{v.get('prop')}/{v.get('rule')}/*"   # a finding may be listed for every construct (`at`: "*")
         if s not in ksigs and w in ksigs:
             s = w
+        if s not in ksigs:
+            feats = str(v.get("at", "")).split("+")
+            for kp, kr, kf, ks in khas:
+                if kp == v.get("prop") and kr == v.get("rule") and kf in feats:
+                    s = ks
+                    break
         if s in ksigs:
             hits.setdefault(s, []).append(v)
         else:
